@@ -369,6 +369,16 @@ class World(object):
     def urandom(self, n):
         return os.urandom(n)
 
+    def server_deflate(self, payload):
+        """The simulated server's permessage-deflate compressor (raw deflate, sync flush, tail stripped);
+        one context per connection (context takeover)."""
+        import zlib
+        z = self.cur.get('srv_deflater')
+        if z is None:
+            z = self.cur['srv_deflater'] = zlib.compressobj(zlib.Z_DEFAULT_COMPRESSION, zlib.DEFLATED, -15)
+        data = z.compress(payload) + z.flush(zlib.Z_SYNC_FLUSH)
+        return data[:-4]
+
     # -- connection scripts
     def begin_connect_phase(self, host, port):
         """Called at getaddrinfo time: the first resolution of a connect() selects the next script."""
@@ -492,9 +502,8 @@ class World(object):
 
     def wait(self, fd, timeout):
         """One selector wait.  Returns readable?  Advances the virtual clock."""
-        self.watch_steps += 1
         if self.watch_steps > self.sc.get('max_waits', 150):
-            raise Watchdog('more than %d selector waits' % self.sc.get('max_waits', 150))
+            raise Watchdog('more than %d selector waits that delivered nothing' % self.sc.get('max_waits', 150))
         st = [s for s in self.socks if 100 + s.id == fd]
         st = st[0] if st else None
         want = -1 if timeout is None else int(round(timeout * 1000 / self.tick))
@@ -502,11 +511,13 @@ class World(object):
             self.rec({"k": "wait", "dt": 0, "ready": True, "want": want, "why": "leftover"})
             return True
         if self.cur.get('silent'):
+            self.watch_steps += 1
             dt = int(round((timeout or 0) / self.tick))
             self.ticks += dt
             self.rec({"k": "wait", "dt": dt, "ready": False, "want": want, "why": "silence"})
             return False
         if self.cur.get('wait_broken'):
+            self.watch_steps += 1
             # a selector that failed keeps failing (EBADF / ECONNRESET do not heal)
             self.rec({"k": "wait", "dt": 0, "ready": False, "want": want, "why": "raise"})
             raise (OSError(9, 'Bad file descriptor (sim)') if self.cur['wait_broken'] == 'error' else Boom('wait'))
@@ -519,6 +530,8 @@ class World(object):
             self.rec({"k": "wait", "dt": 0, "ready": False, "want": want, "why": "raise"})
             raise (OSError(4, 'Interrupted (sim)') if s.get('exc', 'error') == 'error' else Boom('wait'))
         dt = s.get('dt', 0)
+        if s['kind'] != 'data':
+            self.watch_steps += 1
         if s['kind'] == 'timeout':
             if timeout is not None:
                 dt = int(round(timeout / self.tick)) if 'dt' not in s else dt
